@@ -174,7 +174,9 @@ def stepInput (ctx : String) (c : Chain) : M Chain.StepIn := do
   let want : List (Nat × Bool) :=
     if e.logp.isNone ∨ Chain.jointSymmetric c.props then []
     else contrib.map (·, true) ++ contrib.map (·, false)
-  if qs.map (fun q => (q.1, q.2.1)) != want then
+  let got := qs.map (fun q => (q.1, q.2.1))
+  -- the set of queries must be the model's; their order is the code's business
+  if !(got.length == want.length && want.all (got.contains ·) && got.all (want.contains ·)) then
     desync s!"{ctx}: density queries: model {want} real {qs.map (fun q => (q.1, q.2.1))}"
   let pick (r : Bool) := (List.range np).map fun p =>
     ((qs.find? (fun q => q.1 == p && q.2.1 == r)).map (·.2.2)).getD 0
